@@ -162,3 +162,5 @@ Definition new_signed_msg (ctx : bytes) (k : nat) (ht : Z) (data : bytes) : outc
    is not modelled here (C40 does that): its outcome is carried by the case. *)
 Definition decode_and_verify (decoded : outcome smsg) (ctx : bytes) : outcome nat :=
   m <- decoded ;; extract_and_verify ctx m.
+
+Definition verify_cls_ok (o : outcome bool) : bool := match o with Ok true => true | _ => false end.
